@@ -143,6 +143,32 @@ def run(ctx):
     prop_c06.password_truncation(ctx, F)
     prop_c06.revision_not_version(ctx, F)
     prop_c06.identity_only_by_name(ctx, F)
+    import prop_c16
+    prop_c16.pdfdoc_table(ctx, F)
+    # every security handler built from an EncryptionVersion says whether the metadata is encrypted: the value is written in
+    # the literal (or taken from the version's own field), never left to `..Default::default()` (whose `false` disagrees with the
+    # absent /EncryptMetadata entry of V < 4, which means true: the two sides then treat the metadata stream differently)
+    etf = F.fn("<EncryptionState as TryFrom>::try_from")
+    dflt = []
+    nlit = 0
+    for x in lib.struct_literals(etf, "PasswordAlgorithm"):
+        o_ = x[2].get("encrypt_metadata")
+        if o_ is None:
+            continue
+        nlit += 1
+        q_ = op_place(o_)
+        rp_ = etf.root_place(q_, through_names=True) if q_ is not None else None
+        d_ = etf.single_def(rp_["l"]) if rp_ is not None else None
+        if d_ and d_[2] == "call" and (d_[3]["f"].get("fn") or "").endswith("Default::default"):
+            dflt.append(x[1] if len(x) > 1 and isinstance(x[1], int) else "?")
+    ctx.ob("R-SIB", "encrypt-metadata-stated-for-every-version", nlit >= 3 and not dflt, "all %d handler literals state encrypt_metadata themselves" % nlit, etf.where(),
+           what="a security handler built from an EncryptionVersion takes encrypt_metadata from Default::default() (false): encrypting skips the metadata stream, but the written dictionary has no /EncryptMetadata false, so decrypting runs the cipher over plaintext")
+    # PKCS#5 padding is reversible: a whole block of padding is added when the plaintext is a multiple of the block size.  The
+    # cipher crates ask the padding type for this (RawPadding::TYPE); declared "ambiguous" they add nothing in that case, while
+    # the unchanged AES filters still reserve and later strip the block
+    pt = [c for n_, c in F.consts.items() if n_.endswith("Pkcs5 as aes::cipher::block_padding::RawPadding>::TYPE") or re.search(r"Pkcs5 as .*RawPadding>::TYPE$", n_)]
+    ctx.ob("R-TABLE", "pkcs5-padding-is-reversible", len(pt) == 1 and str(pt[0].get("int")) == "0", "<Pkcs5 as RawPadding>::TYPE = PadType::Reversible", "src/encryption/pkcs5.rs",
+           what="<Pkcs5 as RawPadding>::TYPE is not PadType::Reversible (value %s): plaintexts whose length is a multiple of 16 (the empty string among them) get no padding block and do not decrypt" % ([c.get("int") for c in pt]))
     ca, ka = sibling(ctx, F, "encryption::encrypt_object", "encryption::decrypt_object", "object")
     ctx.floor("R-SIB", "byte constants of encrypt_object", len(ka), 4)
     for t in (b"XRef", b"Crypt", b"DecodeParms"):
